@@ -514,6 +514,10 @@ VARIANTS["C18"] = [
 
 # ------------------------------------------------------------------------------------------------ C07
 VARIANTS["C07"] = [
+    V("split-trunc-whole-floor-remainder", "fire", FO, [('    ns = ns or w.shape[axis]\n', '    ns = ns or w.shape[axis]\n    if np.isscalar(s) and abs(s) >= 1 and not np.iscomplexobj(w):\n        w, s = np.roll(w, int(s), axis=axis), s % 1\n')], ("D6",),
+      "whole part truncated, remainder floored: negative non-integer shifts are one sample off"),
+    V("twin-split-floor-floor", "twin", FO, [('    ns = ns or w.shape[axis]\n', '    ns = ns or w.shape[axis]\n    if np.isscalar(s) and abs(s) >= 1 and not np.iscomplexobj(w):\n        w, s = np.roll(w, int(np.floor(s)), axis=axis), s % 1\n')], (), ""),
+    V("twin-split-trunc-minus-trunc", "twin", FO, [('    ns = ns or w.shape[axis]\n', '    ns = ns or w.shape[axis]\n    if np.isscalar(s) and abs(s) >= 1 and not np.iscomplexobj(w):\n        w, s = np.roll(w, int(s), axis=axis), s - int(s)\n')], (), ""),
     V("inplace-on-input", "fire", FO, [(
         "    if do_fft:\n        W = scipy.fft.rfft(w, axis=axis)\n    else:\n        W = w\n", "    w *= 1.0\n    if do_fft:\n        W = scipy.fft.rfft(w, axis=axis)\n    else:\n        W = w\n")], ("D1",), ""),
     V("alias-always", "fire", FO, [(
